@@ -25,6 +25,7 @@ from .sym import Sym, Unsupported, is_sym, lift, B, And, Or, Not, Implies
 from .interp import Interp, RaiseEx, deep_has_sym, Path
 from . import models, solve
 from . import models_datetime  # noqa: F401  (registers the datetime models)
+from . import models_decimal   # noqa: F401  (registers the decimal models)
 
 
 def resolve(qualname):
